@@ -225,6 +225,27 @@ func c18Large() []byte {
 	return c18LargeCache
 }
 
+// c18BrokenStopTimes: a well-formed archive except that stop_times.txt makes the CSV reader fail
+// in its third line (0: a bare quote inside an unquoted field, 1: a row with one field too many).
+func c18BrokenStopTimes(kind int) []byte {
+	m := genStaticFeedN(&Ctx{}, false, baseCounts, nil, nil)
+	var members []rawMember
+	for _, t := range m.Tables {
+		content := renderCSV(t, presentation{})
+		if t.File == "stop_times.txt" {
+			lines := strings.SplitAfter(string(content), "\n")
+			if kind == 0 {
+				lines[2] = "T1,08:00:00,08:0\"0:00,S1,3\n"
+			} else {
+				lines[2] = strings.TrimSuffix(lines[2], "\n") + ",one-too-many\n"
+			}
+			content = []byte(strings.Join(lines, ""))
+		}
+		members = append(members, rawMember{t.File, content})
+	}
+	return buildZip(members, false)
+}
+
 // c18EmptyMember: an archive in which the named member has no bytes at all (rejected).
 func c18EmptyMember(file string) []byte {
 	m := genStaticFeedN(&Ctx{}, false, baseCounts, nil, nil)
@@ -440,7 +461,7 @@ func init() {
 	register(&Check{
 		ID:    "C18",
 		Level: "model_checking",
-		Rule: "threads = parse calls (each followed by hashing and walking its own result) sharing input buffers and one options value; scenarios: realtime||realtime on the same buffer (a valid one; a rejected one: HTML + half a feed), on two copies of a feed of NYCT oddities (assigned trips without train id, updates without stop id) and on two different feeds (elevator feeds that share groups for nyctalerts), static||static on the same archive (known and never-seen unknown agency zone; members with UTF-8 / UTF-16 byte order marks; an archive of 1030 trips with a duplicate trip id, alone and twice; two archives rejected for an empty member of different names; an archive with one rejected row of every kind, a missing optional file and column), realtime||realtime on a kitchen-sink feed (every optional field, alerts with route fall-backs, label-only and bare vehicles), static||realtime, journal+CSV export||journal+CSV export, for 8 configurations (nil Extension with and without Timezone, no-op, nycttrips and nyctalerts behind a yielding proxy, nycttrips and two nyctalerts policies unwrapped with the default zone); thorough adds 3-thread scenarios; every interleaving at the scheduling points (extension method calls + per-entity / per-file hooks) with <= 2 preemptions (thorough <= 4; <= 2 for three threads), each executed under -race with a hand-off the detector cannot see; " +
+		Rule: "threads = parse calls (each followed by hashing and walking its own result) sharing input buffers and one options value; scenarios: realtime||realtime on the same buffer (a valid one; a rejected one: HTML + half a feed), on two copies of a feed of NYCT oddities (assigned trips without train id, updates without stop id) and on two different feeds (elevator feeds that share groups for nyctalerts), static||static on the same archive (known and never-seen unknown agency zone; members with UTF-8 / UTF-16 byte order marks; an archive of 1030 trips with a duplicate trip id, alone and twice; two archives rejected for an empty member of different names; two whose stop_times.txt makes the CSV reader fail; an archive with one rejected row of every kind, a missing optional file and column), realtime||realtime on a kitchen-sink feed (every optional field, alerts with route fall-backs, label-only and bare vehicles), static||realtime, journal+CSV export||journal+CSV export, for 8 configurations (nil Extension with and without Timezone, no-op, nycttrips and nyctalerts behind a yielding proxy, nycttrips and two nyctalerts policies unwrapped with the default zone); thorough adds 3-thread scenarios; every interleaving at the scheduling points (extension method calls + per-entity / per-file hooks) with <= 2 preemptions (thorough <= 4; <= 2 for three threads), each executed under -race with a hand-off the detector cannot see; " +
 			"non-trivial = distinct schedules in which both threads ran between points; oracle = zero race reports (runtime.RaceErrors per schedule) and every call's dump equal to its solo dump",
 		Assumptions: []string{"the Go race detector is trusted (no false positives; bounded shadow history)", "synchronisation inside the standard library / protobuf (sync.Pool, sync.Once) creates real happens-before edges that can hide a conflict in one schedule; the explored preemptions move the calls relative to those edges", "exhaustive over schedules at the listed points within the preemption bound, and over memory for the executed paths; not over inputs"},
 		Scenarios: func(tier string) []*Scenario {
@@ -468,7 +489,7 @@ func init() {
 						// assigned trips without train id, updates without stop ids: each call on its own copy
 						return []c18Call{rtCall("ParseRealtime(oddities)", c18Inputs.feeds[6]), rtCall("ParseRealtime(copy of oddities)", append([]byte(nil), c18Inputs.feeds[6]...))}
 					})},
-					&Scenario{Name: "rt-kitchen-sink/" + cfg.name, Bound: k, Run: c18Harness(cfg, func() []c18Call {
+					&Scenario{Name: "rt-kitchen-sink/" + cfg.name, Bound: k - 1, Run: c18Harness(cfg, func() []c18Call {
 						// every optional field, alerts with route fall-backs, label-only and bare vehicles: on one shared buffer
 						return []c18Call{rtCall("ParseRealtime(kitchen sink)", c18Inputs.feeds[7]), rtCall("ParseRealtime(kitchen sink)", c18Inputs.feeds[7])}
 					})},
@@ -499,6 +520,11 @@ func init() {
 				})},
 				&Scenario{Name: "static-missing-required-columns", Bound: k, Run: c18Harness(c18Configs[1], func() []c18Call {
 					return []c18Call{staticCall("ParseStatic(required columns missing)", c18Inputs.zipNoCols), staticCall("ParseStatic(rejected rows)", c18Inputs.zipRejects)}
+				})},
+				&Scenario{Name: "static-csv-errors-in-stop_times", Bound: k, Run: c18Harness(c18Configs[1], func() []c18Call {
+					// both calls return an error; thousands of such calls run in each worker process: nothing may
+					// be left behind by a failed call (a later call that never returns is caught by the watchdog)
+					return []c18Call{staticCall("ParseStatic(bare quote in stop_times.txt)", c18BrokenStopTimes(0)), staticCall("ParseStatic(wrong field count in stop_times.txt)", c18BrokenStopTimes(1))}
 				})},
 				&Scenario{Name: "static-large-archive", Bound: 1, Run: c18Harness(c18Configs[1], func() []c18Call {
 					return []c18Call{staticCall("ParseStatic(1030 trips, one id twice)", c18Large())}
